@@ -95,6 +95,7 @@ type enc struct {
 	entryAt         int
 	lastModel       map[string]string
 	usedSpecs       map[string]bool
+	lexicalCallee   bool
 	fnConsts        []string
 	dropAssert      map[int]bool
 	allocSites      []string // one constant per allocation site: different sites never yield the same object
